@@ -683,7 +683,7 @@ func vfC27ReturnToAlphabet() vfC27Alpha {
 		return vfC27Alpha{
 			scheme:   []string{"https://", "http://", "HTTPS://", "javascript://", "//", "", "https:/", "https:\\\\", "https:"},
 			userinfo: []string{"", "u@", "allowed.example@", "allowed.example:443@"},
-			host:     []string{"allowed.example", "evil.example", "localhost", "127.0.0.1", "[::1]", "allowed.example.evil.example", "ALLOWED.EXAMPLE", "localhost.evil.example", "allowed.example%2eevil.example"},
+			host:     []string{"allowed.example", "evil.example", "localhost", "127.0.0.1", "[::1]", "allowed.example.evil.example", "ALLOWED.EXAMPLE", "localhost.evil.example", "allowed.example%2eevil.example", "localhostx", "127.0.0.1.evil.example"},
 			port:     []string{"", ":443", ":8443", ":0", ":abc"},
 			path:     []string{"", "/", "/x", "\\@evil.example", "/..//evil.example", "\\.evil.example/"},
 			suffix:   []string{"", "?q", "#f", "\r\n", "%0d%0aSet-Cookie:x=1"},
@@ -692,7 +692,7 @@ func vfC27ReturnToAlphabet() vfC27Alpha {
 	return vfC27Alpha{
 		scheme:   []string{"https://", "http://", "HTTPS://", "javascript://", "//", "https:\\\\"},
 		userinfo: []string{"", "u@", "allowed.example:443@"},
-		host:     []string{"allowed.example", "evil.example", "localhost", "[::1]", "allowed.example.evil.example", "ALLOWED.EXAMPLE"},
+		host:     []string{"allowed.example", "evil.example", "localhost", "[::1]", "allowed.example.evil.example", "ALLOWED.EXAMPLE", "localhost.evil.example", "localhostx", "127.0.0.1.evil.example"},
 		port:     []string{"", ":443", ":8443", ":abc"},
 		path:     []string{"", "/x", "\\@evil.example", "/..//evil.example"},
 		suffix:   []string{"", "#f", "\r\n"},
